@@ -2,7 +2,7 @@
    encoders below, are read back as exactly the encoded packages, types and entries *)
 From Coq Require Import ZArith List Bool Lia ZifyBool.
 Require Import V.Lib.Val V.Lib.Result V.Lib.Struct V.Axml.PoolModel V.Axml.PoolProofs V.Axml.ArscTypeModel V.Axml.ArscTypeProofs V.Axml.ArscComplex
-               V.Axml.ArscTypeChunk V.Axml.ArscTableModel V.Misc.TermModel.
+               V.Axml.ArscTypeChunk V.Axml.ArscTypeChunkEnc V.Axml.ArscTableModel V.Misc.TermModel.
 Import ListNotations.
 Open Scope Z_scope.
 Ltac Zify.zify_post_hook ::= Z.to_euclidean_division_equations.
@@ -35,22 +35,37 @@ Qed.
 (* ---------------------------------------------------------------- the chunks of a package *)
 Inductive pchunk :=
 | PSpec (tid : Z) (flags : list Z)                                         (* a type spec: one flag word per entry *)
-| PType (tid cz : Z) (tail : list Z) (slots : list (option erec)).          (* a type: configuration of cz bytes, the slots *)
+| PType (tid cz : Z) (tail : list Z) (slots : list (option erec))           (* a type: configuration of cz bytes, the slots; 32-bit offsets *)
+| PTypeG (tid fl cnt cz : Z) (tail oa : list Z) (slots : list (option erec))    (* a type in any encoding of the offset array oa (flags fl, count cnt) *)
+| POther (ty hs : Z) (body : list Z).                                            (* any other chunk (library, overlayable, ...): the rest of its header and its body *)
 Definition spec_bytes (tid : Z) (flags : list Z) : list Z :=
   hdr8 514 16 (16 + 4 * Z.of_nat (length flags)) ++ [tid; 0] ++ b16 0 ++ b32 (Z.of_nat (length flags)) ++ flat_map b32 flags.
 Definition pchunk_bytes (c : pchunk) : list Z :=
-  match c with PSpec tid fl => spec_bytes tid fl | PType tid cz tail slots => type_chunk_bytes tid (b32 cz ++ tail) slots end.
+  match c with
+  | PSpec tid fl => spec_bytes tid fl
+  | PType tid cz tail slots => type_chunk_bytes tid (b32 cz ++ tail) slots
+  | PTypeG tid fl cnt cz tail oa slots => type_chunk_bytes_gen tid fl cnt (b32 cz ++ tail) oa slots
+  | POther ty hs body => hdr8 ty hs (8 + len body) ++ body
+  end.
 Definition chunks_bytes (cs : list pchunk) : list Z := flat_map pchunk_bytes cs.
 Definition wf_pchunk (tpool : pool) (c : pchunk) : Prop :=
   match c with
   | PSpec tid fl => 16 + 4 * Z.of_nat (length fl) < 4294967296
   | PType tid cz tail slots => 52 <= cz < 65516 /\ len tail = cz - 4 /\ Forall wf_slot slots /\ type_chunk_size (b32 cz ++ tail) slots < 4294967295 /\
                               exists s, get_string tpool (tid - 1) = Ok s
+  | PTypeG tid fl cnt cz tail oa slots =>
+      52 <= cz < 65516 /\ len tail = cz - 4 /\ Forall wf_slot slots /\ 0 <= cnt < 4294967296 /\
+      20 + cz + len oa + len (body_bytes slots) < 4294967295 /\
+      (forall base fuel rest', len oa <= Z.of_nat fuel -> read_offsets fuel fl 0 cnt base (oa ++ rest') = Ok (present base 0 (slot_offsets 0 slots))) /\
+      exists s, get_string tpool (tid - 1) = Ok s
+  | POther ty hs body => 0 <= ty < 65536 /\ ty <> 513 /\ ty <> 514 /\ 8 <= hs < 65536 /\ hs <= 8 + len body /\ 8 + len body < 4294967296
   end.
 Definition type_of (pkg : Z) (c : pchunk) : list type_chunk :=
   match c with
   | PSpec _ _ => []
   | PType tid cz tail slots => [{| t_id := tid; t_flags := 0; t_count := Z.of_nat (length slots); t_entries := expected (pkg * 16777216 + tid * 65536) 0 slots |}]
+  | PTypeG tid fl cnt cz tail oa slots => [{| t_id := tid; t_flags := fl; t_count := cnt; t_entries := expected (pkg * 16777216 + tid * 65536) 0 slots |}]
+  | POther _ _ _ => []
   end.
 Definition types_of (pkg : Z) (cs : list pchunk) : list type_chunk := flat_map (type_of pkg) cs.
 
@@ -58,11 +73,19 @@ Lemma len_b32s' l : len (flat_map b32 l) = 4 * Z.of_nat (length l).
 Proof. induction l as [|x l IH]; [reflexivity|]. cbn [flat_map length]. rewrite len_app, IH. change (len (b32 x)) with 4. lia. Qed.
 Lemma len_spec tid fl : len (spec_bytes tid fl) = 16 + 4 * Z.of_nat (length fl).
 Proof. unfold spec_bytes. rewrite !len_app, len_b32s', len_hdr8. change (len [tid; 0]) with 2. change (len (b16 0)) with 2. change (len (b32 (Z.of_nat (length fl)))) with 4. lia. Qed.
-Lemma len_pchunk_ge c : 16 <= len (pchunk_bytes c).
+Lemma len_type_chunk_gen tid fl cnt cfg oa slots : len (type_chunk_bytes_gen tid fl cnt cfg oa slots) = 20 + len cfg + len oa + len (body_bytes slots).
 Proof.
-  destruct c as [tid fl|tid cz tail slots]; cbn [pchunk_bytes].
+  unfold type_chunk_bytes_gen. cbv zeta. rewrite !len_app. change (len [tid; fl]) with 2.
+  repeat match goal with |- context [len (b16 ?x)] => change (len (b16 x)) with 2 end.
+  repeat match goal with |- context [len (b32 ?x)] => change (len (b32 x)) with 4 end. lia.
+Qed.
+Lemma len_pchunk_ge c : 8 <= len (pchunk_bytes c).
+Proof.
+  destruct c as [tid fl|tid cz tail slots|tid fl cnt cz tail oa slots|ty hs body]; cbn [pchunk_bytes].
+  4:{ rewrite len_app, len_hdr8. pose proof (len_nonneg body). lia. }
   - rewrite len_spec. lia.
   - rewrite len_type_chunk. unfold type_chunk_size. pose proof (len_nonneg (b32 cz ++ tail)). pose proof (len_nonneg (body_bytes slots)). lia.
+  - rewrite len_type_chunk_gen. pose proof (len_nonneg (b32 cz ++ tail)). pose proof (len_nonneg (body_bytes slots)). pose proof (len_nonneg oa). lia.
 Qed.
 Lemma at_app' pre l : at_ (pre ++ l) (len pre) = l.  Proof. exact (at_app pre l). Qed.
 
@@ -83,7 +106,7 @@ Proof.
                       (len pre + (len (pchunk_bytes c) + len (flat_map pchunk_bytes cs))) pkg acc' = Ok (acc' ++ types_of pkg cs)).
     { intros acc'. rewrite (app_assoc pre). rewrite <- len_app. replace (len pre + (len (pchunk_bytes c) + len (flat_map pchunk_bytes cs)))
         with (len (pre ++ pchunk_bytes c) + len (flat_map pchunk_bytes cs)) by (rewrite len_app; lia). apply IH; [exact Wr | lia]. }
-    destruct c as [tid fl|tid cz tail slots]; cbn [pchunk_bytes wf_pchunk type_of] in *.
+    destruct c as [tid fl|tid cz tail slots|tid fl cnt cz tail oa slots|ty hs body]; cbn [pchunk_bytes wf_pchunk type_of] in *.
     + rewrite len_spec in *. unfold spec_bytes. rewrite <- !app_assoc.
       rewrite arsc_header_lb by lia. cbn [bind].
       replace (len pre + (16 + 4 * Z.of_nat (length fl) + len (flat_map pchunk_bytes cs)) <? len pre + (16 + 4 * Z.of_nat (length fl))) with false by lia.
@@ -111,9 +134,32 @@ Proof.
       cbn [app] in TC. rewrite TC. cbn [bind].
       pose proof (Next (acc ++ [{| t_id := tid; t_flags := 0; t_count := Z.of_nat (length slots); t_entries := expected (pkg * 16777216 + tid * 65536) 0 slots |}])) as N.
       rewrite <- !app_assoc in N. cbn [app] in N. rewrite N. rewrite <- ?app_assoc. reflexivity.
+    + destruct Wc as (Hcz & Ht & Hws & Hcnt & Hsz & HOA & s & Hgs). rewrite len_type_chunk_gen in *.
+      assert (Lcf : len (b32 cz ++ tail) = cz) by (rewrite len_app; change (len (b32 cz)) with 4; lia). rewrite Lcf in *.
+      pose proof (len_nonneg (body_bytes slots)) as Lb. pose proof (len_nonneg oa) as Lo.
+      set (sz := 20 + cz + len oa + len (body_bytes slots)) in *.
+      assert (Eh : type_chunk_bytes_gen tid fl cnt (b32 cz ++ tail) oa slots = hdr8 513 (20 + cz) sz ++
+                   [tid; fl] ++ b16 0 ++ b32 cnt ++ b32 (20 + cz + len oa) ++ (b32 cz ++ tail) ++ oa ++ body_bytes slots).
+      { unfold type_chunk_bytes_gen, hdr8. cbv zeta. rewrite Lcf. unfold sz. rewrite <- !app_assoc. reflexivity. }
+      pose proof (type_chunk_exact_gen pre tid fl cnt cz tail oa slots (flat_map pchunk_bytes cs ++ rest) pkg Hcz Ht Hws Hcnt Hsz
+                    (HOA (pkg * 16777216 + tid * 65536))) as TC.
+      rewrite Eh in TC, Next |- *. rewrite <- !app_assoc. repeat rewrite <- app_assoc in TC.
+      rewrite arsc_header_lb by (unfold sz; lia). cbn [bind].
+      replace (len pre + (sz + len (flat_map pchunk_bytes cs)) <? len pre + sz) with false by lia.
+      change (513 =? RES_TABLE_TYPE_SPEC) with false. change (513 =? RES_TABLE_TYPE) with true. cbv iota.
+      replace (len pre + 8) with (len (pre ++ hdr8 513 (20 + cz) sz)) by (rewrite len_app, len_hdr8; lia).
+      rewrite (app_assoc pre), at_app'. cbn [app u8 bind]. rewrite Hgs. cbn [bind]. rewrite <- app_assoc.
+      cbn [app] in TC. rewrite TC. cbn [bind].
+      pose proof (Next (acc ++ [{| t_id := tid; t_flags := fl; t_count := cnt; t_entries := expected (pkg * 16777216 + tid * 65536) 0 slots |}])) as N.
+      rewrite <- !app_assoc in N. cbn [app] in N. rewrite N. rewrite <- ?app_assoc. reflexivity.
+    + destruct Wc as (Hty & H513 & H514 & Hhs & Hle & Hsz). rewrite len_app, len_hdr8 in *. pose proof (len_nonneg body) as Lb.
+      rewrite <- !app_assoc. rewrite arsc_header_lb by lia. cbn [bind].
+      replace (len pre + (8 + len body + len (flat_map pchunk_bytes cs)) <? len pre + (8 + len body)) with false by lia.
+      unfold RES_TABLE_TYPE_SPEC, RES_TABLE_TYPE. replace (ty =? 514) with false by lia. replace (ty =? 513) with false by lia. cbv iota.
+      pose proof (Next acc) as N. rewrite <- !app_assoc in N. rewrite N. now rewrite ?app_nil_r.
 Qed.
 
-Lemma chunks_count_le cs : Z.of_nat (length cs) * 16 <= len (chunks_bytes cs).
+Lemma chunks_count_le cs : Z.of_nat (length cs) * 8 <= len (chunks_bytes cs).
 Proof. unfold chunks_bytes. induction cs as [|c l IH]; [cbn; lia|]. cbn [flat_map length]. rewrite len_app. pose proof (len_pchunk_ge c). lia. Qed.
 
 (* ---------------------------------------------------------------- the table *)
